@@ -46,7 +46,10 @@ macro_rules! df {
                 let mut value = *value;
                 $(
                     if value >= $bias {
-                        value -= $bias;
+                        value = match $crate::df::BiasSub::bias_sub(value, $bias) {
+                            Some(v) => v,
+                            None => return Err(RtcmError::OutOfRange),
+                        };
                     } else {
                         return Err(RtcmError::OutOfRange);
                     }
@@ -316,3 +319,31 @@ macro_rules! df_88591_string_with_len {
 
 pub mod dfs;
 // pub use dfs::*;
+
+/// Removal of a data field's bias: integer fields can overflow their type here
+/// (e.g. an `i8` frequency channel above 120 with bias -7), which is reported as out of range.
+pub trait BiasSub: Sized {
+    fn bias_sub(self, bias: Self) -> Option<Self>;
+}
+macro_rules! impl_bias_sub_int {
+    ($($t:ty),*) => {$(
+        impl BiasSub for $t {
+            #[inline]
+            fn bias_sub(self, bias: Self) -> Option<Self> {
+                self.checked_sub(bias)
+            }
+        }
+    )*};
+}
+impl_bias_sub_int!(u8, u16, u32, u64, usize, i8, i16, i32, i64);
+macro_rules! impl_bias_sub_float {
+    ($($t:ty),*) => {$(
+        impl BiasSub for $t {
+            #[inline]
+            fn bias_sub(self, bias: Self) -> Option<Self> {
+                Some(self - bias)
+            }
+        }
+    )*};
+}
+impl_bias_sub_float!(f32, f64);
